@@ -36,6 +36,8 @@ pub use verif_hooks::{VerifCompaction, verif_set_point_hook};
 pub use verif_hooks::{VerifParked, verif_select};
 #[cfg(blue_verif)]
 pub use verif_hooks::VerifPending;
+#[cfg(blue_verif)]
+pub use verif_hooks::verif_set_sst_point_hook;
 
 use recover::recover;
 
@@ -1614,6 +1616,8 @@ impl LsmTree {
             mani_edit.add(&setsum.hexdigest())?;
             let new_path = SST_FILE(&self.root, setsum);
             COMPACTION_LINK.click();
+            #[cfg(blue_verif)]
+            verif_hooks::verif_sst_point("compaction_finish:before_pin", &setsum);
             pinned.push(setsum);
             match self
                 .references
@@ -1627,6 +1631,8 @@ impl LsmTree {
                         .with_debug_field("dst", &new_path);
                 }
             };
+            #[cfg(blue_verif)]
+            verif_hooks::verif_sst_point("compaction_finish:pinned", &setsum);
             outputs.push(metadata);
         }
         #[cfg(blue_verif)]
@@ -1801,6 +1807,8 @@ impl LsmTree {
     /// before anyone can take a new reference to that setsum.
     fn release_sst(&self, setsum: Setsum) {
         self.references.dec_and(setsum, || {
+            #[cfg(blue_verif)]
+            verif_hooks::verif_sst_point("release_sst:before_rename", &setsum);
             let sst_path = SST_FILE(&self.root, setsum);
             let trash_path = TRASH_SST(&self.root, setsum);
             // SAFETY(rescrv):  This will just leave an orphan.
